@@ -7,19 +7,19 @@ from ..gen import schema as S, descr
 ANSI = re.compile(r"\x1b\[[0-9;]*m")
 
 
-def parse_string(text):
+def parse_string(text, logger=None):
     from fcp.parser import get_fcp_from_string
     from fcp.error import Logger
 
-    lg = Logger({})
+    lg = logger if logger is not None else Logger({})
     return get_fcp_from_string(text, lg), lg
 
 
-def parse_file(path):
+def parse_file(path, logger=None):
     from fcp.parser import get_fcp
     from fcp.error import Logger
 
-    lg = Logger({})
+    lg = logger if logger is not None else Logger({})
     return get_fcp(str(path), lg), lg
 
 
